@@ -21,9 +21,11 @@
                             '((size_t)__CPROVER_POINTER_OFFSET(path) <= g_k && g_k < (size_t)__CPROVER_POINTER_OFFSET(end)) ==> !C19_PEND(g_p0[g_k])'],
              'decreases': 'g_L - (size_t)__CPROVER_POINTER_OFFSET(end)'}],
  'ghost_calls': ['C19_OFF'],
+ 'fallback': 'ghost-free',
  'witness': {'unwind': 9},
 } @*/
 #include "c19_path.h"
+#include "c19_path_ref.h"
 size_t g_L, g_k, g_s;
 const char *g_p0;
 #include <igris/util/pathops.h>
@@ -43,6 +45,7 @@ void harness(void)
 
     const char *r = path_next(p, with_len ? &len : NULL);
 
+#if !VC_FALLBACK
     /* g_s: position where the skipping stopped (ghost output) */
     __CPROVER_assert(g_s <= L, "path_next: skipping stops inside the string");
     __CPROVER_assert(!(k < g_s) || C19_PSKIP(p, k), "path_next: every skipped byte is a slash or a single-dot component");
@@ -60,5 +63,16 @@ void harness(void)
             __CPROVER_assert(len == 0xDEAD, "path_next: nothing written without p_len");
         }
     }
+#endif
+#if defined(WITNESS_MODE) && KF_C19_path_single_dot_overread == 0
+    /* direct reference (no ghost state): skip slashes / single dots, then the component up to the next slash / NUL */
+    {
+        size_t s = c19_ref_skip(p, 0);
+        if (p[s] == 0)
+            __CPROVER_assert(r == NULL && len == 0xDEAD, "path_next: NULL when only separators / single dots are left (direct reference)");
+        else
+            __CPROVER_assert(r == p + s && (with_len ? len == (unsigned int)c19_ref_complen(p, s) : len == 0xDEAD), "path_next: start and length of the next component (direct reference)");
+    }
+#endif
     CANARY("path_next end reachable");
 }
